@@ -313,6 +313,53 @@ func senderSpace(o ls.Options, first int) {
 	}
 }
 
+// deepSpace: sequences of five and six messages (thorough seven) over six
+// kinds - two channels, a controller, a program change, a short sysex, a
+// clock: what a listener keeps from three or four messages ago (a status it
+// cached, a flag a sysex cleared) shows only behind that many steps. With and
+// without running status, in one piece and bytewise.
+var deepKinds = []string{"NoteOn0a", "NoteOn1", "CC0", "Prog0", "SysExMin", "Clock"}
+
+func deepSpace(o ls.Options, first int) {
+	var kinds []ls.SMsg
+	for _, k := range deepKinds {
+		for _, a := range alphabet {
+			if a.Name == k {
+				kinds = append(kinds, a)
+			}
+		}
+	}
+	maxDepth := ctx.Pick(6, 7)
+	seq := make([]ls.SMsg, maxDepth)
+	var rec func(i, depth int)
+	rec = func(i, depth int) {
+		if i == depth {
+			for _, elide := range []bool{false, true} {
+				wire := ls.SerializeLong(seq[:depth], elide)
+				raw := make([]byte, len(wire))
+				for k, w := range wire {
+					raw[k] = w.B
+				}
+				play(o, raw, []int{len(raw)}, []int32{2}, "deep")
+				bw := make([]int, len(raw))
+				for k := range bw {
+					bw[k] = 1
+				}
+				play(o, raw, bw, pattern(len(raw), 0), "deep")
+			}
+			return
+		}
+		for _, m := range kinds {
+			seq[i] = m
+			rec(i+1, depth)
+		}
+	}
+	for depth := 5; depth <= maxDepth; depth++ {
+		seq[0] = kinds[first]
+		rec(1, depth)
+	}
+}
+
 func product(o ls.Options) {
 	b := &engine.BFS{NumOps: len(ls.Classes), MaxStates: 400000, MaxTransitions: 1000000, Stop: func() bool { return ctx.ViolationCount() > 0 }}
 	b.Run = func(path []uint16) (string, bool) {
@@ -548,6 +595,7 @@ func main() {
 	}
 	ctx.Jobs("sender", len(jobs), func(j int) { senderSpace(jobs[j].o, jobs[j].first) })
 	ctx.Jobs("relisten", len(cs), func(j int) { relistenSpace(j) })
+	ctx.Jobs("deep", len(cs)*len(deepKinds), func(j int) { deepSpace(cs[j/len(deepKinds)], j%len(deepKinds)) })
 	ctx.Jobs("periodic", 16, func(j int) { periodic(j, 16) })
 	ctx.Jobs("known-sysex", 1, func(int) { knownSysexSpace(); subMillis() })
 	nc := len(chunkClasses)
